@@ -8,6 +8,7 @@ Dynamic side: real `fit` runs of the 8 gradient-trained model families with
 L2: the extracted Coq model (Model/Forward.v + Model/Mlcl.v + Model/Backprop.v, float instance) recomputes the step.
 L3: central finite differences of  GEMINI(infer(batch)) [+ constraint terms] - penalty  w.r.t. every parameter entry.
 """
+import copy
 import json
 import numpy as np
 from core import Check, enc_list, enc_mat, enc_vec, hx
@@ -80,8 +81,9 @@ class Recorder:
             return g
         est.get_gemini = rec_get_gemini
 
-    def fit(self, X, path_kw=None):
+    def fit(self, X, path_kw=None, y=None, entry="fit"):
         orig_up = BaseOptimizer.update_params
+        self.result = None
         rec = self
 
         def hook(opt, params, grads):
@@ -93,10 +95,12 @@ class Recorder:
             return orig_up(opt, params, grads)
         BaseOptimizer.update_params = hook
         try:
-            if path_kw is None:
-                self.est.fit(X)
+            if path_kw is not None:
+                self.result = self.est.path(X, y, **path_kw)
+            elif entry == "fit_predict":
+                self.result = self.est.fit_predict(X, y)
             else:
-                self.est.path(X, **path_kw)
+                self.est.fit(X, y)
         finally:
             BaseOptimizer.update_params = orig_up
             for g in self.gems:
@@ -172,13 +176,13 @@ def true_indices(Xb, Xfull):
     return idx
 
 
-def align_affinity(chk, key, est, rec, fam, X, steps, replay, dynamic):
+def align_affinity(chk, key, est, rec, fam, X, steps, replay, dynamic, y=None):
     """L3: the affinity block every training step was evaluated with must be the rows AND columns of the batch's own
     samples in the full affinity (computed here, on the full data, with the GEMINI's public compute_affinity).
     The independently derived block replaces the recorded one in the finite-difference objective."""
     Xfull = np.asarray(est.training_kernel_ if fam == "KernelRIM" else X, dtype=float)
     try:
-        A_full = rec.gem.compute_affinity(Xfull, None)
+        A_full = rec.gem.compute_affinity(Xfull, None if y is None else np.asarray(y, dtype=float))
     except Exception:
         A_full = None
     bad = None
@@ -195,7 +199,7 @@ def align_affinity(chk, key, est, rec, fam, X, steps, replay, dynamic):
         blk = np.asarray(A_full)[np.ix_(idx, idx)]
         st["affinity_ind"] = blk
         rec_blk = st.get("affinity")
-        if rec_blk is None or np.shape(rec_blk) != blk.shape or not np.allclose(rec_blk, blk, rtol=1e-12, atol=1e-12):
+        if rec_blk is None or np.shape(rec_blk) != blk.shape or not np.allclose(rec_blk, blk, rtol=1e-12, atol=1e-12, equal_nan=True):
             bad = bad or ("affinity-misaligned", st["step"], "the affinity block used for the GEMINI gradient is not the rows/columns of the batch's own samples "
                           f"(batch samples {idx})")
     chk.dist["affinity_blocks_aligned_checked"] += sum(1 for st in steps if "affinity_ind" in st)
@@ -241,6 +245,11 @@ def fd_check(chk, key, est, rec, st, fam, replay, max_entries):
     res = {"checked": 0, "kink": 0, "unstable": 0, "bad": 0}
     if not np.isfinite(y0).all() or (y0 <= eps * 10).any() or (y0 >= 1 - 1e-9).any():
         res["clipped"] = 1                       # on / next to the clip boundary: the score is not differentiable there
+        for p, q in zip(live, saved):
+            np.copyto(p, q)
+        return res
+    if fam == "Douglas" and any(len(np.unique(c)) < len(c) for c in st["params"][1:]):
+        res["cut_tie"] = 1                       # tied cut points: argsort is not locally constant, the pass is not differentiable there
         for p, q in zip(live, saved):
             np.copyto(p, q)
         return res
@@ -401,26 +410,55 @@ def make_case(chk, i, rng):
     return fam, kw, X, ml, cl, factor, bsc, decorated
 
 
-def run_case(chk, i, stream, case, path_kw=None):
+def snapshot(a):
+    """Bit-exact picture of an argument (arrays: dtype, shape, strides-independent bytes, flags; containers: deep copy)."""
+    if isinstance(a, np.ndarray):
+        return ("nd", a.dtype.str, a.shape, np.ascontiguousarray(a).tobytes(), bool(a.flags.writeable))
+    return ("py", copy.deepcopy(a))
+
+
+def same_snapshot(a, snap):
+    if snap[0] == "nd":
+        return isinstance(a, np.ndarray) and (a.dtype.str, a.shape, np.ascontiguousarray(a).tobytes(), bool(a.flags.writeable)) == snap[1:]
+    return a == snap[1] if not isinstance(a, np.ndarray) else False
+
+
+def install_init_hook(est, hook):
+    """Run `hook(est)` right after the estimator's own _init_params (to start from a chosen corner of parameter space)."""
+    orig = est._init_params
+
+    def init(random_state, X=None):
+        orig(random_state, X)
+        hook(est)
+    est._init_params = init
+
+
+def run_case(chk, i, stream, case, path_kw=None, y=None, entry="fit", init_hook=None, tag=None):
     fam, kw, X, ml, cl, factor, bsc, decorated = case
     est = impl.make(fam, **kw)
     rec = Recorder(est, ml, cl, factor)
     rec.install()
-    replay = {"family": fam, "kwargs": kw, "n": len(X), "d": X.shape[1], "must_link": ml, "cannot_link": cl, "factor": factor, "case_id": i}
-    rec.fit(X, path_kw)
+    if init_hook is not None:
+        install_init_hook(est, init_hook)
+    replay = {"family": fam, "kwargs": kw, "n": len(X), "d": X.shape[1], "must_link": ml, "cannot_link": cl, "factor": factor, "case_id": i,
+              "entry": entry if path_kw is None else "path", "tag": tag, "precomputed": y is not None}
+    snaps = [snapshot(X), snapshot(y)] if y is not None else [snapshot(X)]
+    rec.fit(X, path_kw, y, entry)
+    if not same_snapshot(X, snaps[0]) or (y is not None and not same_snapshot(y, snaps[1])):
+        chk.fail(f"{fam}:{'mlcl' if decorated else 'plain'}:argument-mutated", "fit/path changed the caller's X or affinity array", replay, layer="L3")
     n = len(X)
     steps = rec.steps
     for s, st in enumerate(steps):
         st["step"] = s
     bs_eff = n if (kw["batch_size"] is None or fam == "CategoricalModel") else kw["batch_size"]
-    exp_steps = kw["max_iter"] * (-(-n // bs_eff))
+    exp_steps = kw["max_iter"] * (-(-n // max(1, bs_eff)))
     key = f"{fam}:{'mlcl' if decorated else 'plain'}"
     if (path_kw is None and len(steps) != exp_steps) or len(steps) == 0 or any(k not in st for st in steps for k in ("X", "y_pred", "g_raw", "g_in", "params", "grads")):
         chk.fail(key + ":trace", f"recorded {len(steps)} optimiser steps, expected {exp_steps} (or an incomplete step record)", replay)
         chk.count(None)
         return
     chk.traces += 1
-    align_affinity(chk, key, est, rec, fam, X, steps, replay, dynamic=bool(kw.get("dynamic")) and path_kw is not None)
+    align_affinity(chk, key, est, rec, fam, X, steps, replay, dynamic=bool(kw.get("dynamic")) and path_kw is not None and y is None, y=y)
     moved = any(not np.array_equal(a, b) for a, b in zip(steps[0]["params"], steps[-1]["params"]))
     # ---- L2 on every step (capped), L3 on a few steps spread over the epochs (never the very first: parameters must have moved)
     cap = 14 if chk.tier == "quick" else 60
@@ -435,6 +473,12 @@ def run_case(chk, i, stream, case, path_kw=None):
                 or not np.isfinite(st["g_raw"]).all():
             nonfinite += 1
             continue
+        if fam in ("MLPModel", "SparseMLPModel"):
+            A_pre = st["X"] @ st["params"][0] + st["params"][-2]
+            tiny = 1e-12 * (1.0 + float(np.abs(st["X"]).max(initial=0.0)) * float(np.abs(st["params"][0]).max(initial=0.0)))
+            if ((A_pre != 0) & (np.abs(A_pre) < tiny)).any():
+                chk.dist["l2_relu_near_tie_steps"] += 1       # the sign of a rounding residue decides the mask: no clear margin, not compared
+                continue
         Y, Gd, dirs = model_step(chk, fam, est, st, rec)
         rp = dict(replay, step=s)
         if not close(Y, st["y_pred"], RTOL_MODEL):
@@ -447,7 +491,7 @@ def run_case(chk, i, stream, case, path_kw=None):
                                                f"(max abs diff {np.abs(gm - gi.reshape(gm.shape)).max():.3g})", rp)
         if st["idx"] is not None:
             in_batch_pairs += sum(1 for (a, b) in ml + cl if a in st["idx"] and b in st["idx"])
-    fdres = {"checked": 0, "kink": 0, "unstable": 0, "nonsmooth": 0, "bad": 0, "clipped": 0}
+    fdres = {"checked": 0, "kink": 0, "unstable": 0, "nonsmooth": 0, "bad": 0, "clipped": 0, "cut_tie": 0}
     max_entries = 40 if chk.tier == "quick" else 200
     for s in fd_steps:
         st = steps[s]
@@ -458,6 +502,8 @@ def run_case(chk, i, stream, case, path_kw=None):
         for k2, v in r.items():
             fdres[k2] = fdres.get(k2, 0) + v
     chk.dist[stream + ":family:" + fam] += 1
+    if tag:
+        chk.dist[f"{stream}:{tag}"] += 1
     chk.dist["gemini:" + str(kw["gemini"])] += 1
     chk.dist["solver:" + kw["solver"]] += 1
     chk.dist["batch:" + bsc] += 1
@@ -469,7 +515,7 @@ def run_case(chk, i, stream, case, path_kw=None):
         chk.dist["fd_" + k2] += v
     if decorated:
         chk.dist["decorated_steps_with_pair_in_batch"] += in_batch_pairs
-    nontrivial = moved and fdres["checked"] > 0 and (not decorated or in_batch_pairs > 0 or bsc in ("1", "edge", "path"))
+    nontrivial = moved and fdres["checked"] > 0 and (not decorated or in_batch_pairs > 0 or bsc in ("1", "edge", "path", "bound", "pre"))
     chk.count((stream, fam, kw["gemini"], kw["solver"], bsc, decorated) if nontrivial else None)
     chk.sample({"stream": stream, "family": fam, "gemini": kw["gemini"], "solver": kw["solver"], "batch_size": kw["batch_size"], "n": n,
                 "steps": len(steps), "decorated": decorated, "fd": fdres})
@@ -485,18 +531,19 @@ def stream_path(chk, i, rng):
     n = int(rng.integers(6, 15))
     d = int(rng.integers(3, 5))
     gem = NON_WS[int(rng.integers(0, len(NON_WS)))]
-    bs = [None, 3, n // 2][int(rng.integers(0, 3))]
+    bs = [None, 3, n // 2, n, n + 2][i % 5]
     kw = dict(n_clusters=2, gemini=gem, max_iter=2, learning_rate=0.05, solver=["sgd", "adam"][(i // 2) % 2], batch_size=bs,
               alpha=float(rng.choice([0.05, 0.3])), random_state=int(rng.integers(0, 10 ** 6)), dynamic=bool((i // 4) % 2))
     if fam == "SparseMLPModel":
         kw["n_hidden_dim"] = int(rng.integers(1, 4))
     X = impl.blobs(rng, n, d, k=2)
     ml, cl, factor = [], [], 1.0
-    if (i // 2) % 3 == 2:
+    if (i // 2) % 2 == 1:
         a, b, c = (int(v) for v in rng.permutation(n)[:3])
         ml, cl, factor = [(a, b)], [(b, c)], 1.5
-    run_case(chk, i, "path", (fam, kw, X, ml, cl, factor, "path", bool(ml or cl)),
-             path_kw=dict(alpha_multiplier=3.0, min_features=d - 1, max_patience=1))
+    pk = dict(alpha_multiplier=3.0, min_features=[d - 1, d - 1, d][i % 3], max_patience=1, keep_threshold=[0.9, 1.0][(i // 3) % 2])
+    run_case(chk, i, "path", (fam, kw, X, ml, cl, factor, "path", bool(ml or cl)), path_kw=pk,
+             tag=f"bs={'None' if bs is None else ('n' if bs == n else ('>n' if bs > n else '<n'))},min_features={'d' if pk['min_features'] == d else 'd-1'},keep={pk['keep_threshold']}")
 
 
 def stream_edge(chk, i, rng):
@@ -543,11 +590,319 @@ def stream_edge(chk, i, rng):
     run_case(chk, i, "edge", (fam, kw, X, ml, cl, factor, "edge", decorated))
 
 
+
+# ------------------------------------------------------------------ round-3 families: boundaries, precomputed affinities, representations
+def grid(rng, n, d, step=8, lo=-16, hi=17):
+    """Data on a dyadic grid (multiples of 1/step): exactly representable in float32, rows made distinct."""
+    while True:
+        X = rng.integers(lo, hi, size=(n, d)) / float(step)
+        if len({tuple(r) for r in X.tolist()}) == n:
+            return X
+
+
+def base_kw(rng, fam, K, gem, solver, bs):
+    kw = dict(n_clusters=K, gemini=gem, max_iter=3, learning_rate=0.05, solver=solver, batch_size=bs, random_state=int(rng.integers(0, 10 ** 6)))
+    if fam in ("MLPModel", "SparseMLPModel"):
+        kw["n_hidden_dim"] = int(rng.integers(1, 4))
+    if fam in ("RIM", "KernelRIM"):
+        kw["reg"] = float(rng.choice([0.0, 0.2]))
+        kw["gemini"] = "mi"
+    if fam == "KernelRIM":
+        kw["base_kernel"] = "linear"
+    if fam in ("SparseLinearModel", "SparseMLPModel"):
+        kw["alpha"] = float(rng.choice([0.0, 0.05]))
+    if fam == "Douglas":
+        kw["n_cuts"] = int(rng.integers(1, 3))
+        kw["temperature"] = 0.5
+    return kw
+
+
+BOUND_VARIANTS = ["one-per-cluster", "bs=n", "bs>n", "all-ones", "groups", "relu-zero", "huge", "denormal", "adjacent", "cut-ties", "bin-underflow", "neg-zero"]
+
+
+def stream_bound(chk, i, rng):
+    """Degenerate sizes, inclusive interval ends and adversarial floats, through fit (full L2 + L3)."""
+    variant = BOUND_VARIANTS[i % len(BOUND_VARIANTS)]
+    fam = FAMILIES[(i // len(BOUND_VARIANTS) + i) % len(FAMILIES)]
+    if variant == "groups":
+        fam = ["SparseLinearModel", "SparseMLPModel"][(i // len(BOUND_VARIANTS)) % 2]
+    if variant == "relu-zero":
+        fam = ["MLPModel", "SparseMLPModel"][(i // len(BOUND_VARIANTS)) % 2]
+    if variant in ("cut-ties", "bin-underflow"):
+        fam = "Douglas"
+    n, d, K = int(rng.integers(5, 10)), int(rng.integers(2, 4)), 2
+    gem = NON_WS[int(rng.integers(0, len(NON_WS)))]
+    solver = ["sgd", "adam"][(i // 3) % 2]
+    bs = [None, 2, 3][int(rng.integers(0, 3))]
+    ml, cl, factor, hook = [], [], 1.0, None
+    if variant == "one-per-cluster":
+        K = int(rng.integers(2, 4))
+        n = K
+        bs = [None, 1, K][int(rng.integers(0, 3))]
+    if variant == "all-ones":
+        d, n = 1, int(rng.integers(3, 6))
+    kw = base_kw(rng, fam, K, gem, solver, bs)
+    X = impl.blobs(rng, n, d, k=2)
+    if variant == "bs=n":
+        kw["batch_size"] = n
+    if variant == "bs>n":
+        kw["batch_size"] = n + int(rng.integers(1, 5))
+    if variant in ("bs=n", "bs>n", "one-per-cluster") and n >= 3 and i % 2 == 0:
+        a, b, c = (int(v) for v in rng.permutation(n)[:3])
+        ml, cl, factor = [(a, b)], [(a, c)], 2.0
+    if variant == "all-ones":                     # one feature, one hidden unit, one cut, one pair, one group
+        if "n_hidden_dim" in kw:
+            kw["n_hidden_dim"] = 1
+        if fam == "Douglas":
+            kw["n_cuts"] = 1
+        if fam in ("SparseLinearModel", "SparseMLPModel"):
+            kw["groups"] = [[0]]
+        ml = [(0, 1)]
+    if variant == "groups":
+        kw["groups"] = [[list(range(d))], [[j] for j in range(d)], [[0, d - 1]]][(i // 7) % 3]
+        kw["alpha"] = [0.0, 0.3][(i // 5) % 2]
+    if variant == "relu-zero":                    # pre-activations exactly 0 and -0.0 (structurally: zero rows, zero biases, a zero weight column)
+        X[0] = 0.0
+        X[2] = -0.0
+
+        def hook(est):
+            est.b1_[:] = 0.0
+            est.W1_[:, 0] = 0.0
+    if variant == "huge":
+        X = X * 1e150
+        if fam not in ("RIM", "KernelRIM"):
+            kw["gemini"] = ["kl_ova", "tv_ova", "hellinger_ovo", "mmd_ova"][int(rng.integers(0, 4))]
+    if variant == "denormal":
+        X = X * 1e-310
+    if variant == "adjacent":                     # pairs of samples one ulp apart
+        X[1] = np.nextafter(X[0], np.inf)
+        X[2] = np.nextafter(X[0], -np.inf)
+    if variant == "neg-zero":
+        X[:, 0] = -0.0
+        X[0] = -0.0
+    if variant == "cut-ties":                     # exact ties between cut points, a cut point equal to a data value
+        kw["n_cuts"] = 2 if d >= 3 else 3
+
+        def hook(est, X=X):
+            for f, c in est.cut_points_list_:
+                c[1] = c[0]
+            est.cut_points_list_[0][1][-1] = X[0, est.cut_points_list_[0][0]]
+    if variant == "bin-underflow":                # memberships underflow to exactly 0: the guarded division
+        X = X * 1000.0
+        kw["temperature"] = 0.1
+    run_case(chk, i, "bound", (fam, kw, X, ml, cl, factor, "bound", bool(ml or cl)), init_hook=hook, tag=variant)
+
+
+def precomputed_case(rng, n, kind):
+    """A GEMINI instance taking a precomputed affinity and a matching matrix with exactly representable entries."""
+    B = rng.integers(-8, 9, size=(n, n)) / 8.0
+    if kind == "mmd":
+        A = (B + B.T) / 2.0 + (np.eye(n) * 2.0 if rng.random() < 0.5 else 0.0)      # symmetric, negative entries, possibly indefinite
+        return impl.G.MMDGEMINI(ovo=bool(rng.integers(0, 2)), kernel="precomputed"), A
+    D = np.abs(B + B.T) / 2.0
+    np.fill_diagonal(D, 0.0)
+    return impl.G.WassersteinGEMINI(ovo=bool(rng.integers(0, 2)), metric="precomputed"), D
+
+
+PRE_FAMILIES = ["LinearModel", "MLPModel", "SparseLinearModel", "SparseMLPModel", "CategoricalModel", "Douglas"]
+
+
+def stream_pre(chk, i, rng):
+    """Precomputed affinities through every entry point that trains (fit, fit_predict, path), plain and decorated,
+    batch_size None / < n / = n / > n."""
+    fam = PRE_FAMILIES[i % len(PRE_FAMILIES)]
+    n, d = int(rng.integers(6, 12)), int(rng.integers(2, 4))
+    kind = "ws" if i % 5 == 4 else "mmd"
+    gem, A = precomputed_case(rng, n, kind)
+    bs = [None, 3, n, n + 2][(i // 2) % 4]
+    kw = base_kw(rng, fam, 2, gem, ["sgd", "adam"][(i // 3) % 2], bs)
+    kw["max_iter"] = 2
+    X = impl.blobs(rng, n, d, k=2)
+    ml, cl, factor = [], [], 1.0
+    if (i // 6) % 2 == 1:
+        a, b, c = (int(v) for v in rng.permutation(n)[:3])
+        ml, cl, factor = [(a, b)], [(b, c)], 1.5
+    entry = ["fit", "fit_predict", "path"][(i // 6 + i) % 3]
+    pk = None
+    if entry == "path":
+        if fam not in ("SparseLinearModel", "SparseMLPModel"):
+            entry = "fit_predict"
+        else:
+            kw["alpha"] = 0.1
+            kw["dynamic"] = bool(i % 2)
+            pk = dict(alpha_multiplier=3.0, min_features=d - 1, max_patience=1)
+    if i % 4 == 3:
+        A.setflags(write=False)
+        X.setflags(write=False)
+    run_case(chk, i, "pre", (fam, kw, X, ml, cl, factor, "pre", bool(ml or cl)), path_kw=pk, y=A, entry=entry,
+             tag=f"{kind}:{entry}:bs={'None' if bs is None else ('n' if bs == n else ('>n' if bs > n else '<n'))}{':readonly' if i % 4 == 3 else ''}")
+
+
+def light_trace(fam, kw, X, y, ml, cl, factor, entry, path_kw):
+    """(parameters, directions) at every optimiser step, the labels and the entry point's result: no wrapping of the estimator."""
+    est = impl.make(fam, **kw)
+    if ml is not None or cl is not None:
+        impl.add_mlcl_constraint(est, ml, cl, factor=factor)
+    steps = []
+    orig_up = BaseOptimizer.update_params
+
+    def hook(opt, params, grads):
+        steps.append(([np.array(p, copy=True) for p in params], [np.array(g, copy=True) for g in grads]))
+        return orig_up(opt, params, grads)
+    BaseOptimizer.update_params = hook
+    try:
+        if entry == "path":
+            res = est.path(X, y, **path_kw)
+            res = [np.asarray(r, dtype=float) for r in res[1:]]
+        elif entry == "fit_predict":
+            res = [np.asarray(est.fit_predict(X, y))]
+        else:
+            est.fit(X, y)
+            res = []
+    finally:
+        BaseOptimizer.update_params = orig_up
+    return steps, np.asarray(est.labels_), res
+
+
+def as_variant(a, how, rng):
+    """The same values in another representation (None when the representation cannot hold them)."""
+    a = np.asarray(a)
+    if how in ("int64", "int32"):
+        return a.astype(how) if np.all(a == np.round(a)) else None
+    if how == "bool":
+        return a.astype(bool) if np.all((a == 0) | (a == 1)) else None
+    if how == "float32":
+        b = a.astype(np.float32)
+        return b if np.array_equal(b.astype(np.float64), a) else None
+    if how == "fortran":
+        return np.asfortranarray(a.astype(np.float64))
+    if how == "strided":
+        big = np.zeros((2 * a.shape[0], 2 * a.shape[1]))
+        big[::2, ::2] = a
+        return big[::2, ::2]
+    if how == "reversed-view":
+        return np.ascontiguousarray(a[::-1, ::-1].astype(np.float64))[::-1, ::-1]
+    if how == "readonly":
+        b = a.astype(np.float64).copy()
+        b.setflags(write=False)
+        return b
+    if how == "list":
+        return a.astype(np.float64).tolist()
+    if how == "tuple":
+        return tuple(tuple(r) for r in a.astype(np.float64).tolist())
+    raise ValueError(how)
+
+
+REPRS = ["int64", "int32", "bool", "float32", "fortran", "strided", "reversed-view", "readonly", "list", "tuple"]
+
+
+def stream_repr(chk, i, rng):
+    """Metamorphic: the same values of X / the precomputed affinity / the constraint pairs in another representation give
+    the same optimiser trace (parameters and directions at every step), the same labels, no new exception, and leave the
+    caller's objects untouched."""
+    fam = FAMILIES[i % len(FAMILIES)]
+    n, d = int(rng.integers(5, 10)), int(rng.integers(2, 4))
+    data_kind = ["grid", "integral", "binary"][(i // 8) % 3]
+    if data_kind == "grid":
+        X = grid(rng, n, d)
+    elif data_kind == "integral":
+        X = grid(rng, n, d, step=1, lo=-4, hi=5)
+    else:
+        d = max(d, 3)
+        n = min(n, 7)
+        X = np.array([[(r >> b) & 1 for b in range(d)] for r in rng.permutation(2 ** d)[:n]], dtype=float)
+    use_pre = fam in PRE_FAMILIES and (i // 3) % 2 == 1
+    y = None
+    gem = "mi" if fam in ("RIM", "KernelRIM") else NON_WS[int(rng.integers(0, len(NON_WS)))]
+    if use_pre:
+        gem, y = precomputed_case(rng, n, "ws" if i % 7 == 6 else "mmd")
+        if data_kind != "grid":
+            y = np.round(y)
+            if isinstance(gem, impl.G.WassersteinGEMINI):
+                np.fill_diagonal(y, 0.0)
+    bs = [None, 3, n, n + 1][(i // 2) % 4]
+    kw = base_kw(rng, fam, 2, gem, ["sgd", "adam"][i % 2], bs)
+    kw["max_iter"] = 2
+    entry, pk = ["fit", "fit_predict"][(i // 4) % 2], None
+    if fam in ("SparseLinearModel", "SparseMLPModel") and (i // 8) % 2 == 1:
+        entry, pk = "path", dict(alpha_multiplier=3.0, min_features=d - 1, max_patience=1)
+        kw["alpha"] = 0.1
+    ml = cl = None
+    factor = 1.0
+    if (i // 5) % 2 == 1:
+        a, b, c = (int(v) for v in rng.permutation(n)[:3])
+        ml, cl, factor = [[a, b]], [[b, c]], 2.0
+    replay = {"family": fam, "kwargs": kw, "n": n, "d": d, "data": data_kind, "entry": entry, "precomputed": use_pre, "must_link": ml, "cannot_link": cl}
+    key = f"{fam}:repr"
+    ref = light_trace(fam, kw, X.copy(), None if y is None else y.copy(), ml, cl, factor, entry, pk)
+    hows = [REPRS[(i + j * 3) % len(REPRS)] for j in range(4)]
+    ran = 0
+    for how in hows:
+        Xv = as_variant(X, how, rng)
+        yv = None if y is None else as_variant(y, how if how not in ("bool",) else "readonly", rng)
+        if Xv is None or (y is not None and yv is None):
+            chk.dist[f"repr:{how}:not-representable"] += 1
+            continue
+        if ml is None:
+            mlv = clv = None
+        elif how in ("int32", "int64"):
+            mlv, clv = np.array(ml, dtype=how), np.array(cl, dtype=how)
+        elif how == "tuple":
+            mlv, clv = tuple(tuple(p) for p in ml), tuple(tuple(p) for p in cl)
+        elif how == "readonly":
+            mlv, clv = np.array(ml), np.array(cl)
+            mlv.setflags(write=False)
+            clv.setflags(write=False)
+        else:
+            mlv, clv = [list(p) for p in ml], [list(p) for p in cl]
+        snaps = [snapshot(v) for v in (Xv, yv, mlv, clv)]
+        rp = dict(replay, representation=how)
+        try:
+            got = light_trace(fam, kw, Xv, yv, mlv, clv, factor, entry, pk)
+        except Exception as e:  # noqa
+            if entry == "path" and y is not None and how in ("list", "tuple") and isinstance(e, TypeError):
+                # observed on the unchanged tree, reported to the coordinator: compute_val_score slices y[j:j+bs][:, j:j+bs] on the raw argument
+                note = "OBSERVATION path(X, y=<precomputed affinity as list/tuple of rows>) raises TypeError ('indices must be integers or slices, not tuple') while fit(X, y=<same list>) succeeds"
+                if note not in chk.notes:
+                    chk.notes.append(note)
+                chk.dist["repr:observed:path-affinity-as-list-TypeError"] += 1
+                continue
+            chk.fail(key + ":exception", f"{entry} raises {type(e).__name__}: {e} on the same values presented as {how} (the float64 C-contiguous call succeeds)", rp, layer="L3")
+            continue
+        ran += 1
+        chk.dist[f"repr:{how}"] += 1
+        if not all(same_snapshot(v, sn) for v, sn in zip((Xv, yv, mlv, clv), snaps)):
+            chk.fail(key + ":argument-mutated", f"{entry} changed a caller's argument presented as {how}", rp, layer="L3")
+        # a float32 precomputed affinity is used as float32 by the GEMINIs (not promoted like X): float32 resolution there
+        rt = 1e-5 if (how == "float32" and (y is not None or entry == "path")) else 1e-12
+        if how == "float32" and y is None and entry == "path":
+            note = "OBSERVATION path(X float32) computes the affinity from the float32 X (fit promotes X to float64 first): path results agree with the float64 call to ~1e-8 only"
+            if note not in chk.notes:
+                chk.notes.append(note)
+        if how == "float32" and y is not None:
+            note = "OBSERVATION a float32 precomputed affinity is kept in float32 by compute_affinity (X is promoted to float64): scores/gradients agree with the float64 call to ~1e-8 only"
+            if note not in chk.notes:
+                chk.notes.append(note)
+        ok = len(got[0]) == len(ref[0]) and (np.array_equal(got[1], ref[1]) or rt > 1e-12) and len(got[2]) == len(ref[2]) \
+            and all(close(a, b, max(rt, 1e-12)) for a, b in zip(got[2], ref[2]))
+        if ok:
+            for (p1, g1), (p0, g0) in zip(got[0], ref[0]):
+                if not all(close(a, b, rt) for a, b in zip(p1 + g1, p0 + g0)):
+                    ok = False
+                    break
+        if not ok:
+            chk.fail(key + ":differs", f"{entry} on the same values presented as {how} does not reproduce the optimiser trace / labels of the float64 C-contiguous call", rp, layer="L3")
+    chk.dist["repr:family:" + fam] += 1
+    chk.dist[f"repr:entry:{entry}{':precomputed' if use_pre else ''}{':mlcl' if ml else ''}"] += 1
+    chk.count(("repr", fam, data_kind, entry, use_pre, tuple(hows)) if ran and len(ref[0]) > 0 else None)
+
+
 def sym_callable_kernel(A, B):
     return (A @ B.T + 1.0) ** 2
 
 
-STREAMS = {"fit": (stream_fit, 400, 4000), "edge": (stream_edge, 32, 320), "path": (stream_path, 12, 120)}
+STREAMS = {"fit": (stream_fit, 320, 4000), "edge": (stream_edge, 32, 320), "path": (stream_path, 30, 300),
+           "bound": (stream_bound, 48, 480), "pre": (stream_pre, 36, 360), "repr": (stream_repr, 48, 480)}
 
 
 def main():
@@ -566,7 +921,12 @@ def main():
             if chk.l1_broken:
                 cnt *= 3
             chk.run_stream(name, fn, cnt)
-    chk.finish(rule="stream edge: single cluster / duplicated rows + constant feature / saturated predictions / repeated, reversed and never-in-batch "
+    chk.finish(rule="stream bound: one sample per cluster, batch_size = n and > n, one feature/hidden unit/cut/pair/group, feature groups, pre-activations exactly 0 and -0.0, "
+                    "data scaled by 1e150 / 1e-310, samples one ulp apart, tied cut points and a cut on a data value, underflowed bin memberships (full L2 + L3). "
+                    "stream pre: precomputed affinities (indefinite symmetric kernels with negative entries, distance matrices; read-only) through fit, fit_predict and path, plain and decorated, "
+                    "batch_size None / < n / = n / > n (full L2 + L3 + affinity alignment + arguments unchanged). "
+                    "stream repr: metamorphic - X, the precomputed affinity and the constraint pairs as int64/int32/bool/float32/Fortran/strided and reversed views/read-only/lists/tuples must reproduce the "
+                    "optimiser trace, labels and path results of the float64 C-contiguous call, raise nothing new and leave the caller's objects bit-identical. stream edge: single cluster / duplicated rows + constant feature / saturated predictions / repeated, reversed and never-in-batch "
                     "constraint pairs, feature masks, a callable kernel. stream path: path() of the two sparse families (its own training loop). stream fit: real fits (3 epochs) of the 8 gradient-trained families x GEMINI names x {sgd, adam} x batch size {1, 2, n//2, n, None} x "
                     "plain / mlcl-decorated, n<=20, d<=4, h<=5, with update_params intercepted; every recorded step (capped per fit) is recomputed by the "
                     "extracted model (rtol 1e-9) and a few steps per fit are checked against central finite differences of the objective "
